@@ -1,79 +1,7 @@
-(* Legacy.v — the code as it was BEFORE the seven `fix:` commits in /repo (known_findings.json F1..F7), modelled
-   next to the current definitions, each with a kernel-checked witness that the old code violated the property
-   (`..._refuted`) and that the repaired definition does not (`..._now`).  Nothing here is used by any other
-   file; it is the formal record of the findings. *)
+(* Legacy.v — the client as it was BEFORE the `fix:` commits F6 / F7 (the codec findings are in LegacyCodec.v). *)
 From Zvt Require Import Base Length LengthProps Cp437 Encoding EncodingProps Codec Lookup Client.
+From Zvt Require Export LegacyCodec.
 Open Scope N_scope.
-
-(* ---------- F1 (C02): Tlv::deserialize indexed data[1..3] after a 0x82 length marker ---------- *)
-Definition legacy_tlv_len_de (bs : bytes) : res (N * bytes) :=
-  match bs with
-  | [] => Err IncompleteData
-  | d :: r =>
-      if d <=? 127 then Ok (d, r)
-      else if d =? 129 then match r with [] => Err IncompleteData | d1 :: r1 => Ok (d1, r1) end
-      else if d =? 130 then match r with hi :: lo :: r2 => Ok (hi * 256 + lo, r2) | _ => Panic end   (* slice index out of range *)
-      else Err NonImplemented
-  end.
-Lemma F1_refuted : exists bs, legacy_tlv_len_de bs = Panic.
-Proof. exists [130; 1]. reflexivity. Qed.
-Lemma F1_now : forall bs, len_de LTlv bs <> Panic.
-Proof. intros bs. apply (len_de_no_panic LTlv bs). Qed.
-
-(* ---------- F2 (C02 / C17): Bcd::decode multiplied and added without overflow checks ---------- *)
-(* release build: wrapping arithmetic in the width of the target integer; debug build: panic *)
-Fixpoint legacy_bcd_acc_release (w : N) (bs : bytes) (rv : N) : N :=
-  match bs with
-  | [] => rv
-  | d :: r =>
-      let hi := d / 16 in let lo := d mod 16 in
-      legacy_bcd_acc_release w r ((if lo =? 15 then rv * 10 + hi else rv * 100 + hi * 10 + lo) mod 2 ^ (8 * w))
-  end.
-Fixpoint legacy_bcd_dec_debug (w : N) (bs : bytes) (rv : N) : res N :=
-  match bs with
-  | [] => Ok rv
-  | d :: r =>
-      let hi := d / 16 in let lo := d mod 16 in
-      let nv := if lo =? 15 then rv * 10 + hi else rv * 100 + hi * 10 + lo in
-      if nv <? 2 ^ (8 * w) then legacy_bcd_dec_debug w r nv else Panic      (* attempt to multiply / add with overflow *)
-  end.
-(* the digits 0256 decoded into a u8: 0 in a release build, a panic in a debug build — the two builds disagree *)
-Lemma F2_refuted : legacy_bcd_acc_release 1 [2; 86] 0 = 0 /\ legacy_bcd_dec_debug 1 [2; 86] 0 = Panic.
-Proof. split; reflexivity. Qed.
-Lemma F2_now : bcd_dec 1 [2; 86] = Err IncompleteData.
-Proof. reflexivity. Qed.
-
-(* ---------- F3 (C02 / C17): the month was taken as (date % 1000) / 100 and from_ymd_opt(..).unwrap() ---------- *)
-Definition legacy_date_fields (date : N) : Z * N * N := (Z.of_N (date / 10000), (date mod 1000) / 100, date mod 100).
-(* 5 October 2023 read back as month 0 (then unwrap() panicked); December as February *)
-Lemma F3_refuted : legacy_date_fields 20231005 = (2023%Z, 0, 5) /\ legacy_date_fields 20231224 = (2023%Z, 2, 24).
-Proof. split; reflexivity. Qed.
-Lemma F3_now : datetime_dec [31; 14; 4; 32; 35; 16; 5; 31; 15; 3; 18; 52; 86] = Ok (VDate 2023 10 5 12 34 56, []).
-Proof. vm_compute. reflexivity. Qed.
-
-(* ---------- F4 (C01 / C17): the Utf8 and NaiveDateTime encoders returned vec![] ---------- *)
-Definition legacy_utf8_enc (s : list N) : res bytes := Ok [].
-Lemma F4_refuted : exists s, forall bs, legacy_utf8_enc s = Ok bs -> utf8_dec bs <> Some s.
-Proof. exists [65]. intros bs [= <-]. discriminate. Qed.
-Lemma F4_now : utf8_enc [65] = Ok [65] /\ utf8_dec [65] = Some [65].
-Proof. split; reflexivity. Qed.
-
-(* ---------- F5 (C02 / C12): Vec<T>::deserialize_tagged looped while the element decoder succeeded ---------- *)
-Fixpoint legacy_vec_loop (n : nat) (step : bytes -> res (value * bytes)) (bs : bytes) (acc : list value) : res (value * bytes) :=
-  match n with
-  | O => OutOfFuel
-  | S n => match step bs with
-           | Ok (v, r) => legacy_vec_loop n step r (v :: acc)
-           | Err _ => Ok (VList (rev acc), bs)
-           | Panic => Panic
-           | OutOfFuel => OutOfFuel
-           end
-  end.
-(* an element type that decodes from nothing (Option<_>, a struct of Options, a zero-width value): no fuel ever suffices *)
-Lemma F5_refuted : forall n, legacy_vec_loop n (fun bs => Ok (VNone, bs)) [] [] = OutOfFuel.
-Proof. intros n. generalize (@nil value). induction n as [|n IH]; intros acc; [reflexivity|]. cbn [legacy_vec_loop]. apply IH. Qed.
-Lemma F5_now : forall n, vec_loop (S n) (fun bs => Ok (VNone, bs)) [] [] = Ok (VList [], []).
-Proof. intros n. reflexivity. Qed.
 
 (* ---------- F6 (C10): (timeout_sec + 2) as u64 — the addition was done in u8 ---------- *)
 Definition legacy_read_card_timeout_release (t : N) : N := ((t + 2) mod 256) * 1000.
@@ -93,20 +21,3 @@ Definition any_cfg : config :=
 (* with a deadline the attempt ends AT the deadline, whatever it is: there is no finite time at which it ends by itself *)
 Lemma F7_refuted : forall d, match connect any_cfg d silent_world with CErr 3 w' => w_now w' = d | _ => False end.
 Proof. intros d. vm_compute. reflexivity. Qed.
-
-(* ---------- F8 (C02): the date number was split with `date as i32 / 10000`, `date as u32 % 10000 / 100`, `date as u32 % 100` ---------- *)
-Definition legacy_date_split (date : N) : Z * N * N :=
-  (Z.quot (as_i32 date) 10000, ((date mod 4294967296) mod 10000) / 100, (date mod 4294967296) mod 100).
-(* the ten digits 4315197701 (2^32 + 20230405) were read as 5 April 2023, 2621430101 (beyond 2^31) as 1 January of the year -167353 *)
-Lemma F8_refuted : legacy_date_split 4315197701 = (2023%Z, 4, 5) /\ legacy_date_split 2621430101 = ((-167353)%Z, 1, 1).
-Proof. split; reflexivity. Qed.
-(* now: 1F0E 05 4315197701 1F0F 03 123456 is an error; and whenever the decoder answers, the date it answers IS the number's
-   digits: year = date / 10000 (at most the calendar's last year), month and day its last four digits *)
-Lemma F8_now : datetime_dec [31; 14; 5; 67; 21; 25; 119; 1; 31; 15; 3; 18; 52; 86] = Err IncompleteData
-            /\ datetime_dec [31; 14; 5; 38; 33; 67; 1; 1; 31; 15; 3; 18; 52; 86] = Ok (VDate 262143 1 1 12 34 56, []).
-Proof. split; vm_compute; reflexivity. Qed.
-Lemma F8_both :
-  (legacy_date_split 4315197701 = (2023%Z, 4, 5) /\ legacy_date_split 2621430101 = ((-167353)%Z, 1, 1)) /\
-  (datetime_dec [31; 14; 5; 67; 21; 25; 119; 1; 31; 15; 3; 18; 52; 86] = Err IncompleteData /\
-   datetime_dec [31; 14; 5; 38; 33; 67; 1; 1; 31; 15; 3; 18; 52; 86] = Ok (VDate 262143 1 1 12 34 56, [])).
-Proof. exact (conj F8_refuted F8_now). Qed.
